@@ -246,7 +246,12 @@ func (r *run) runChild(k *child, bin string, nshards int) {
 	}
 	cmd.Dir = r.dir
 	env := append(os.Environ(), "GOGC=400", "GOMAXPROCS=2", "GOTRACEBACK=single", "VERIF_RUNDIR="+r.dir)
-	env = append(env, ph.Env...)
+	env = append(env, "VERIF_REPO="+repoDir)
+	for _, e := range ph.Env {
+		e = strings.ReplaceAll(e, "%DIR%", r.dir)
+		e = strings.ReplaceAll(e, "%SHARD%", strconv.Itoa(k.shard))
+		env = append(env, e)
+	}
 	cmd.Env = env
 	so, _ := os.Create(k.stdout)
 	se, _ := os.Create(k.stderr)
@@ -722,8 +727,15 @@ func (r *run) finish() int {
 		"violations":  len(newViol),
 	}
 	b, _ := json.MarshalIndent(evd, "", " ")
-	os.MkdirAll(filepath.Join(verifDir, "evidence"), 0o755)
-	evPath := filepath.Join(verifDir, "evidence", r.prop+".json")
+	evDir := filepath.Join(verifDir, "evidence")
+	if v := os.Getenv("VERIF_EVIDENCE_DIR"); v != "" {
+		evDir = v
+	} else if repoDir != "/repo" {
+		// self-tests against a mutated scratch copy must not overwrite the evidence of the real tree
+		evDir = filepath.Join(verifDir, ".build", "selftest-evidence")
+	}
+	os.MkdirAll(evDir, 0o755)
+	evPath := filepath.Join(evDir, r.prop+".json")
 	if err := os.WriteFile(evPath, append(b, '\n'), 0o644); err != nil {
 		fmt.Fprintln(os.Stderr, "cannot write evidence:", err)
 		exit = 2
